@@ -19,6 +19,7 @@ import (
 	"go/ast"
 	"io"
 	"net"
+	"os"
 	"sort"
 	"strconv"
 	"strings"
@@ -36,7 +37,12 @@ import (
 	gomysql "github.com/go-sql-driver/mysql"
 )
 
-func main() { hx.Main(extract, run) }
+func main() {
+	if len(os.Args) > 1 && os.Args[1] == "script" {
+		os.Exit(scriptMain())
+	}
+	hx.Main(extract, run)
+}
 
 // ---------------------------------------------------------------------------------------------
 // Terms (mirror of Gms/Model/Prepared.lean)
@@ -955,6 +961,10 @@ func extract(a hx.ExtractArgs) error {
 		return true
 	})
 	lf.DefStringList("preparedStatementCalls", lookups)
+	// (3) what a bind may leave behind in the prepared statement's AST (facts2.go)
+	if err := extractAstFacts(a.Repo, lf); err != nil {
+		return err
+	}
 	return lf.Write(a.Out)
 }
 
@@ -991,7 +1001,12 @@ func run(a hx.RunArgs) error {
 		"BETWEEN, LIMIT, VALUES, SET) with int / string (quotes, backslashes, UTF-8) / NULL values; statements are re-executed with other values and " +
 		"after DML, and survive DROP/CREATE of the table between histories; each history runs on four paths (QueryWithBindings, PREPARE/EXECUTE, " +
 		"go-sql-driver binary protocol, inlined text); a history is non-trivial when at least one re-execution of a statement text with " +
-		"different values returns a different observation"
+		"different values returns a different observation; shist: one fresh session per history, 2-5 statements whose meaning depends on the " +
+		"catalog (INSERT without column list, SELECT *, NATURAL JOIN, INSERT with column list, named SELECT/UPDATE/DELETE) executed 6-14 " +
+		"times with ALTER TABLE MODIFY COLUMN FIRST/AFTER, ADD COLUMN, DROP COLUMN in between, same four paths + the cached AST compared with a " +
+		"fresh parse; non-trivial when an INSERT-without-list / SELECT * / NATURAL JOIN is re-executed after the physical column order " +
+		"changed; twin: two statements whose texts differ only in the letter case of one string literal executed alternately in one " +
+		"session; non-trivial when both ran at least twice"
 	r := hx.NewRand(a.Seed).Fork()
 	p, err := newPaths()
 	if err != nil {
@@ -1076,6 +1091,7 @@ func run(a hx.RunArgs) error {
 		var fails []string
 		for i, sp := range steps {
 			text := sp.st.text(mode{})
+
 			sigmaA := sp.sigma
 			for j := 0; j < sp.extra; j++ {
 				sigmaA = append(append([]value(nil), sigmaA...), vint(7))
@@ -1118,6 +1134,18 @@ func run(a hx.RunArgs) error {
 		for _, f := range fails {
 			out.OracleFail(id, "-", f)
 		}
+	}
+	// ---- histories with schema changes between the executions of a prepared statement, and case-twin statement
+	// pairs (schema.go); own generators, so that the stream above is the same sample as before
+	nSchema, nTwin := 70, 40
+	if a.Thorough {
+		nSchema, nTwin = 3000, 1500
+	}
+	if err := runSchemaHistories(p, out, a.Seed, nSchema); err != nil {
+		return err
+	}
+	if err := runTwinHistories(p, out, a.Seed, nTwin); err != nil {
+		return err
 	}
 	return nil
 }
